@@ -61,6 +61,11 @@ def akai_name_set(rng: random.Random, k: int, *, pairs: bool = True) -> List[str
     stems = [rng.choice(["A", "AB", "PAD", "A.", "A-", "A+B", "A B", "A  B", "KICK 1", "X#", "..", ".", "-", "1", "A 2", "L", "R", ""])
              for _ in range(3)]
     out: List[str] = []
+    if k >= 4 and rng.random() < 0.1:
+        # two groups of duplicates whose generated "(n)" names may coincide
+        st = rng.choice(["AB", "A", "X1"])
+        a, b = rng.sample([st + " L", st + "  L", st + " L.", st + "-L", st + " - L", st + " R", st + "  R"], 2)
+        out += [a, a, b, b]
     while len(out) < k:
         r = rng.random()
         stem = rng.choice(stems)
@@ -101,6 +106,10 @@ def ascii_name(rng: random.Random, maxlen: int = 16) -> str:
 def ascii_name_set(rng: random.Random, k: int, *, pairs: bool = True, maxlen: int = 16) -> List[str]:
     stems = [rng.choice(["A", "AB", "Pad", "A.", "A/", "..", "A (2)", "", "a b", "A-", "x/y", "A:B", "L", "'q'"]) for _ in range(3)]
     out: List[str] = []
+    if k >= 4 and rng.random() < 0.1:
+        st = rng.choice(["AB", "A", "x/y", "A:"])
+        a, b = rng.sample([st + " L", st + "  L", st + " L.", st + "-L", st + " - L", st + " 'L", st + " R", st + "/ L"], 2)
+        out += [a, a, b, b]
     while len(out) < k:
         r = rng.random()
         stem = rng.choice(stems)
